@@ -18,6 +18,10 @@ CLAIMED = {
          "Exploration: every measurement is executed twice, in frame A and in frame B = T*A for random isometries (any axis/angle incl. exact 0, +-pi/2, pi, translations to 1e3); scalars must agree and geometric results must be related by T; round trips and compositions included. Entities: surface points, segments, planes, 2D/3D curves, meshes, point clouds, distances, point slices.",
          "Equivariance of closest points/stations is judged only where the arg-min is unique (single element strictly inside); tolerance 1e-9*extent + 1e3*u*(offset+|t|); normal/direction tolerances scale with u*offset/element size.",
          "3 / C03"),
+ "C04": ("runtime monitor: conservation-law oracle (expected travel length + expected vertex list) over single requests and nested portioning histories",
+         "Exploration: between_lengths / between_lengths_by_control / split_open_at_length / split_closed_at_lengths / trim_front / trim_back / reversed on generated open and closed curves with request lengths from a special lattice (0, L, vertex lengths, +-ulp, +-tol/2, +-2tol, same edge, last edge, seam, out of range) and uniform pairs; histories of up to 4 nested operations judged step by step and against the original curve.",
+         "Well-posed (travel >= 4 tol, |l1-l0| >= tol) requests must succeed and are judged; ill-posed (out of range, reversed on open, travel < tol) must yield nothing; the band between is not judged. End points within tol+eps, length within 4 tol+eps.",
+         "3 / C04"),
 }
 
 def main():
